@@ -723,6 +723,18 @@ def rule_class_source(ctx):
     from cfg import decision_paths
     CC = "<char as chars::Char>::char_class"
     CCAN = "<char as chars::Char>::char_class_and_normalize"
+    from props.c01 import char_routines_by_evaluation
+    ev = char_routines_by_evaluation(ctx)
+    if ev is not None:
+        fnb = get_fn(ctx.facts, M, CCAN)
+        if ev["class"]:
+            c, ic, nz, b1, k_ = ev["class"][0]
+            ctx.violation("%s|class-source|eval" % CCAN, site(fnb, 0),
+                          "char::char_class_and_normalize classifies U+%04X as %s while char::char_class says %s (ignore_case=%s normalize=%s): the bonus of a position depends on "
+                          "which classifier a scorer happens to use" % (c, b1[2] if isinstance(b1, tuple) else b1, k_[2] if isinstance(k_, tuple) else k_, bool(ic), bool(nz)))
+        else:
+            ctx.ok(site(fnb, 0), "class component of char_class_and_normalize == char_class on %d representative characters x 4 configurations (evaluated)" % ev["reps"])
+        return
 
     def raw(x):
         x = strip_casts(x)
